@@ -52,6 +52,23 @@ def prove(chk, pid):
                 if extra:
                     ok = False
                     problems.append(f"{n} depends on non-allow-listed axioms {extra}")
+    if ok and chk.tier == "thorough":
+        # independent re-check of the compiled files and everything they depend on
+        rc2, out2 = C.sh(f"cd {C.COQ} && timeout 1800 coqchk -o -silent -Q . RRSS RRSS.Properties.{pid} 2>&1", timeout=1900)
+        m = re.search(r"\* Axioms:(.*?)\n\s*\n\* Constants/Inductives relying on type-in-type:(.*?)\n\s*\n"
+                      r"\* Constants/Inductives relying on unsafe \(co\)fixpoints:(.*?)\n\s*\n"
+                      r"\* Inductives whose positivity is assumed:(.*?)\n", out2, re.S)
+        if rc2 != 0 or not m:
+            ok = False
+            problems.append("coqchk failed: " + out2[-800:])
+        else:
+            ax = [a.strip() for a in m.group(1).split("\n") if a.strip() and a.strip() != "<none>"]
+            extra = [a for a in ax if not any(a.endswith(x) for x in C.STD_AXIOM_ALLOW)]
+            unsafe = [g.strip() for g in m.groups()[1:] if g.strip() != "<none>"]
+            chk.notes.append(f"coqchk -o: axioms in the whole loaded context: {ax or 'none'}")
+            if extra or unsafe:
+                ok = False
+                problems.append(f"coqchk reports axioms {extra} / relaxed checks {unsafe}")
     chk.discharged = len(names) if ok else 0
     for n in names:
         chk.theorems.setdefault(n, {})["statement_note"] = spec.get("notes", {}).get(n, "")
